@@ -23,10 +23,15 @@
 #include "opus_private.h"
 #include "celt.h"
 #include "stack_alloc.h"
-#define VERIF_VLA_CAP 11520                 /* 2 x 5760 samples (120 ms at 48 kHz); 21 x 255 band energies */
-#define VERIF_VLA_LEN 5355                  /* what this function itself indexes: 21 x 255 band energies (the sample buffer is only handed on) */
 #ifndef VERIF_MT
-#define VERIF_MT MAPPING_TYPE_NONE
+#define VERIF_MT 0
+#endif
+#define VERIF_VLA_CAP 11520                 /* 2 x 5760 samples (120 ms at 48 kHz); 21 x 255 band energies */
+#if VERIF_MT == 1
+#define VERIF_VLA_LEN 5355                  /* what this function itself indexes: 21 x 255 band energies (the sample buffer is only handed on) */
+#else
+#define VERIF_VLA_LEN 8                     /* no scratch array is indexed by this function unless the mapping type is surround (measured: two 5355-element
+                                               local arrays under the loop-contract instrumentation exhaust 16 GB in propositional reduction) */
 #endif
 #undef ALLOC
 #define ALLOC(var, size, type) type var[VERIF_VLA_LEN]; __CPROVER_assert((long)(size) >= 0 && (long)(size) <= VERIF_VLA_CAP, "scratch array request fits the fixed capacity of this harness")
@@ -114,8 +119,8 @@ void verif_surround_analysis(const CELTMode *celt_mode, const void *pcm, celt_gl
 void verif_copy_in(opus_res *dst, int dst_stride, const void *src, int src_stride, int src_channel, int frame_size, void *user_data)
 { (void)dst; (void)dst_stride; (void)src; (void)src_stride; (void)src_channel; (void)frame_size; (void)user_data; }
 
-#define VERIF_PTR_AT(s, c) (VERIF_HDR + ((s) < (c) ? (s) : (c)) * VERIF_AL(VERIF_ENC2) + ((s) < (c) ? 0 : (s) - (c)) * VERIF_AL(VERIF_ENC1))
-#define VERIF_SMALLEST(k) (2 * (k) - 1 + (Fs / frame_size == 10 ? (k) : 0))
+#define VERIF_PTR_AT(s, c) ((long long)VERIF_HDR + (long long)((s) < (c) ? (s) : (c)) * VERIF_AL(VERIF_ENC2) + ((s) < (c) ? 0LL : (long long)(s) - (c)) * VERIF_AL(VERIF_ENC1))
+#define VERIF_SMALLEST(k) (2LL * (k) - 1 + (Fs / frame_size == 10 ? (long long)(k) : 0LL))
 #undef  OPUS_VERIF_LOOP_ms_enc_rates
 #define OPUS_VERIF_LOOP_ms_enc_rates \
   __CPROVER_assigns(s, ptr) \
@@ -125,10 +130,10 @@ void verif_copy_in(opus_res *dst, int dst_stride, const void *src, int src_strid
 #undef  OPUS_VERIF_LOOP_ms_enc_streams
 #define OPUS_VERIF_LOOP_ms_enc_streams \
   __CPROVER_assigns(s, ptr, tot_size, data, __CPROVER_object_whole(&rp), __CPROVER_object_whole(bandLogE), g_nenc, g_nout, g_enc_len, g_written) \
-  __CPROVER_loop_invariant(0 <= s && s <= st->layout.nb_streams && g_nout == s) \
+  __CPROVER_loop_invariant(0 <= s && s <= st->layout.nb_streams && g_nout == s && g_nenc == s) \
   __CPROVER_loop_invariant(__CPROVER_same_object(ptr, st) && PO(ptr) == VERIF_PTR_AT(s, st->layout.nb_coupled_streams)) \
   __CPROVER_loop_invariant(__CPROVER_same_object(data, g_data0) && PO(data) == tot_size && g_written == tot_size && s <= tot_size) \
-  __CPROVER_loop_invariant(s < st->layout.nb_streams ==> max_data_bytes - tot_size >= VERIF_SMALLEST(st->layout.nb_streams - s)) \
+  __CPROVER_loop_invariant(s < st->layout.nb_streams ==> (long long)max_data_bytes - tot_size >= VERIF_SMALLEST(st->layout.nb_streams - s)) \
   __CPROVER_loop_invariant(s == st->layout.nb_streams ==> tot_size <= max_data_bytes) \
   __CPROVER_decreases(st->layout.nb_streams - s)
 #include "/repo/src/opus_multistream_encoder.c"
@@ -162,7 +167,7 @@ void h_ms_budget(void)
    g_Fs = Fs; g_vbr = nondet_bool(); g_n = n; g_cap = cap; g_data0 = out; g_nenc = 0; g_nout = 0; g_written = 0; g_enc_len = 0; g_frame = 0;
    ret = opus_multistream_encode_native(st, verif_copy_in, pcm, afs, out, cap, 24, (downmix_func)0, 1, NULL);
    __CPROVER_assert(ret < 0 || (1 <= ret && ret <= cap), "multistream encode returns a negative error code or a length in 1..max_data_bytes");
-   __CPROVER_assert(ret == OPUS_BAD_ARG || ret == OPUS_BUFFER_TOO_SMALL || ret == OPUS_INTERNAL_ERROR || ret > 0 || g_nenc > 0, "errors of its own: OPUS_BAD_ARG (frame size), OPUS_BUFFER_TOO_SMALL, OPUS_INTERNAL_ERROR; anything else comes from a stream encoder");
+   __CPROVER_assert(ret == OPUS_BAD_ARG || ret == OPUS_BUFFER_TOO_SMALL || ret == OPUS_INTERNAL_ERROR || ret > 0 || g_nenc > 0, "errors of its own: OPUS_BAD_ARG (frame size), OPUS_BUFFER_TOO_SMALL, OPUS_INTERNAL_ERROR (a stream packet the repacketizer refuses); anything else comes from a stream encoder");
    if (ret > 0) {
       CANARY("packet produced");
       __CPROVER_assert(g_nenc == n && g_nout == n, "one packet per stream");
@@ -170,7 +175,7 @@ void h_ms_budget(void)
    }
    if (ret == OPUS_BUFFER_TOO_SMALL) {
       CANARY("buffer too small");
-      __CPROVER_assert(g_nenc == 0 && g_frame > 0 && cap < 2 * n - 1 + (Fs / g_frame == 10 ? n : 0), "OPUS_BUFFER_TOO_SMALL only below the smallest possible packet (2 bytes per stream, 1 for the last, one more each for 100 ms), before anything is coded");
+      __CPROVER_assert(g_nenc > 0 || (g_frame > 0 && cap < 2 * n - 1 + (Fs / g_frame == 10 ? n : 0)), "OPUS_BUFFER_TOO_SMALL of its own only below the smallest possible packet (2 bytes per stream, 1 for the last, one more each for 100 ms), before anything is coded");
    }
    CANARY("after ms encode");
 }
